@@ -173,6 +173,10 @@ fn main() {
         let mut dst = TypedImage::<F32>::new(2, 1);
         fr::change_type_of_pixel_components_typed(&src, &mut dst).unwrap();
         println!("I32->F32: -1e9 -> {:?}, +1e9 -> {:?}", dst.pixels()[0].0, dst.pixels()[1].0);
+        let src = TypedImage::<F32>::from_pixels(3, 1, vec![F32::new(-0.5), F32::new(-0.25), F32::new(0.5)]).unwrap();
+        let mut dst = TypedImage::<I32>::new(3, 1);
+        fr::change_type_of_pixel_components_typed(&src, &mut dst).unwrap();
+        println!("F32->I32: -0.5 -> {:?}, -0.25 -> {:?}, +0.5 -> {:?}", dst.pixels()[0].0, dst.pixels()[1].0, dst.pixels()[2].0);
     }
     if want("split-zero-width") {
         let v = MyView { w: 0, h: 5, row: vec![] };
